@@ -633,6 +633,7 @@ FINDING_KEYS = {
     ("relabel-prep-modes", "passive"): "C16:passive.state_vector:preparation-mode-tuple-ignored",
     ("relabel-prep-modes", "fock"): "C16:fock.density_matrix:preparation-mode-tuple-ignored",
     ("relabel-prep-modes", "fgaussian"): "C16:fermionic.gaussian.state_vector:preparation-mode-tuple-ignored",
+    ("relabel-prep-modes", "ffock"): "C16:fermionic.fock.state_vector:preparation-mode-tuple-ignored",
     ("relabel-measure-all", "passive"): "C16:passive.particle_number_measurement:outcome-ignores-mode-order",
 }
 
